@@ -71,11 +71,14 @@ Lemma load_dump_relB e s s0 : static (cf e) -> rel KB s s0 -> rel KB s (load_dum
 Proof.
   intros [Hd _] H. unfold load_dump. rewrite Hd. cbv zeta.
   destruct (stored (sr (nd s0))) as [[sn|]|]; auto.
-  cbn [andb]. destruct (eidx (s_e1 sn) <=? applied (nd s0)).
+  cbn [andb]. destruct (eidx (s_e1 sn) <=? applied (nd s0)) eqn:Eb.
   { eapply rel_trans; [exact H|]. simpl. unfold sameB, rinv. cbn. split; [reflexivity|]. auto. }
+  apply N.leb_gt in Eb.
   destruct (self_ver (nd s0) <? s_ver sn); auto.
-  cbn [orb].
-  eapply rel_trans; [exact H|]. simpl. unfold sameB, rinv. cbn. split; [reflexivity|]. lia.
+  eapply rel_trans; [exact H|]. cbv beta iota zeta.
+  match goal with |- context [if ?b then upd (fun n => n <| log := delete_to _ _ |>) _ else _] => destruct b end;
+    match goal with |- context [negb ?b] => destruct b end;
+    cbn; (split; [reflexivity|]); unfold rinv; cbn; lia.
 Qed.
 
 (* ---------- apply ---------- *)
